@@ -176,6 +176,10 @@ class Check:
             extra.append(e)
         scn = self._scenario(kind, params, tail, tol, arch, faults, wseed=seed % 50, extra_faults=extra)
         scn['world']['dip'] = rnd.choice([60.0, -40.0, 10.0, 30.0])
+        if rnd.random() < 0.3:
+            # the period is given per call to a data-less instance built with the class default (10 ms); batch gets Dt
+            scn['params']['dt_route'] = 'call'
+            scn['world']['dt'] = 0.02
         return scn
 
     # ------------------------------------------------------------------
@@ -213,7 +217,7 @@ class Check:
         for k in range(1, n):
             try:
                 r = K.out_to_array(kind.step(inst, p, q, g[k] if 'g' in kind.sensors else None,
-                                             a[k] if 'a' in kind.sensors else None, m[k] if 'm' in kind.sensors else None, False))
+                                             a[k] if 'a' in kind.sensors else None, m[k] if 'm' in kind.sensors else None, C.call_dt(p, hist.dt)))
                 out.append(r)
                 if r is not None and CM.attitude_defect(r, tol=1e-6) is None:
                     q = r
